@@ -17,6 +17,7 @@ package standalone
 import (
 	"context"
 	"fmt"
+	"sync/atomic"
 	"time"
 
 	"github.com/conduitio/conduit-commons/config"
@@ -68,6 +69,10 @@ type wasmProcessor struct {
 	// moduleError contains the error returned by the module after it stopped
 	moduleError error
 }
+
+// moduleInstanceSeq numbers the instantiated processor modules, it is used to
+// give every module instance a unique name.
+var moduleInstanceSeq atomic.Uint64
 
 type tuple[T1, T2 any] struct {
 	V1 T1
@@ -130,7 +135,11 @@ func newWASMProcessor(
 		ctx,
 		processorModule,
 		wazero.NewModuleConfig().
-			WithName(id). // ensure unique module name
+			// The module name has to be unique among the live modules of the
+			// runtime. The processor ID alone is not: a live reconfigure
+			// instantiates the replacement while the processor it replaces is
+			// still running (open-before-teardown), both with the same ID.
+			WithName(fmt.Sprintf("%s#%d", id, moduleInstanceSeq.Add(1))).
 			WithEnv(magicCookieKey, magicCookieValue).
 			WithEnv(conduitProcessorIDKey, id).
 			WithEnv(conduitLogLevelKey, logger.GetLevel().String()).
@@ -359,6 +368,11 @@ func (p *wasmProcessor) executeCommand(ctx context.Context, req *processorv1.Com
 	case <-ctx.Done():
 		// TODO if this happens we should probably kill the plugin, as it's
 		//  probably stuck
+		// The module still owes the response to this command and nobody waits
+		// for it anymore. It has to be received nevertheless, otherwise the
+		// module blocks forever in command_response and never fetches another
+		// command, so the next command (at the latest Teardown) would hang.
+		go p.discardLateResponse()
 		return nil, ctx.Err()
 	case <-p.moduleStopped:
 		return nil, cerrors.Errorf("processor plugin stopped while waiting for response to command %T: %w", req.Request, plugin.ErrPluginNotRunning)
@@ -376,4 +390,16 @@ func (p *wasmProcessor) executeCommand(ctx context.Context, req *processorv1.Com
 	}
 
 	return resp, nil
+}
+
+// discardLateResponse receives and drops the response to a command that was
+// abandoned because its context was cancelled. The module handles commands
+// strictly one after the other, so it fetches the next command only after this
+// response was taken off its hands - the response to the next command can't be
+// mistaken for it.
+func (p *wasmProcessor) discardLateResponse() {
+	select {
+	case <-p.commandResponses:
+	case <-p.moduleStopped:
+	}
 }
